@@ -37,6 +37,18 @@ def run(tier, vd):
     r2b["viol"] = [v for v in r2["viol"] if v["rule"] in ("K2", "K3", "PANIC")]
     report_viols(vd, "C08", r2b, {"world": "tcp_pair", "seed": sd}, lambda v: {"rule": v["rule"], "world": "tcp_pair"}, lambda v: "tcp_pair %s %s" % (v["rule"], v["p"]))
 
+    # K2 on fragmented IPv4 traffic (first, middle and last fragments each carry their own header checksum)
+    ff = []
+    for k in range(2 if tier == "quick" else 8):
+        tf2 = os.path.join(OUT, "traces", "c08.frag.%d.ndjson" % k)
+        run_harness(exe, ["frag-random", "--seed", sd * 100 + 80 + k, "--runs", 150 if tier == "quick" else 1000, "--out", tf2])
+        ff.append(tf2)
+    r3 = validate_traces("FragTrace", ff, parallel=8)
+    vd.add_validation(r3)
+    r3b = dict(r3)
+    r3b["viol"] = [v for v in r3["viol"] if v["rule"] in ("K2", "PANIC")]
+    report_viols(vd, "C08", r3b, {"world": "frag", "seed": sd}, lambda v: {"rule": v["rule"], "world": "frag"}, lambda v: "frag %s %s" % (v["rule"], v["p"]))
+
     def mut(e):
         if e.get("ev") == "csum" and e.get("len", 0) > 3:
             e["res"] = (e["res"] + 1) % 65536
@@ -53,5 +65,8 @@ def replay(obj, vd):
         ingresscommon.replay(obj, vd, "C08")
     elif w == "tcp_pair":
         tcpcommon.replay_generic(obj, vd, "C08")
+    elif w == "frag":
+        from checks import c12
+        c12.replay(obj, vd)
     else:
         raise ToolError("re-run bin/check C08 (checksum vectors are regenerated deterministically from the seed)")
